@@ -12,16 +12,18 @@ import (
 
 // ReqCase is one HTTP request to serve through the generated API.
 type ReqCase struct {
-	ID       string              `json:"id"`
-	Method   string              `json:"method"`
-	Path     string              `json:"path"`
-	RawQuery string              `json:"rawQuery"`
-	Headers  map[string][]string `json:"headers"`
-	Body     string              `json:"body"` // base64 when BodyB64
-	BodyB64  bool                `json:"bodyB64"`
-	HasBody  bool                `json:"hasBody"`
-	Script   Script              `json:"script"`
-	Abs      map[string]any      `json:"abs"` // the harness's abstract description, echoed in the Req event
+	ID         string              `json:"id"`
+	Method     string              `json:"method"`
+	Path       string              `json:"path"`
+	RawQuery   string              `json:"rawQuery"`
+	Headers    map[string][]string `json:"headers"`
+	Body       string              `json:"body"` // base64 when BodyB64
+	BodyB64    bool                `json:"bodyB64"`
+	HasBody    bool                `json:"hasBody"`
+	Script     Script              `json:"script"`
+	Abs        map[string]any      `json:"abs"`        // the harness's abstract description, echoed in the Req event
+	FailWrites bool                `json:"failWrites"` // the ResponseWriter's Write fails (client went away)
+	Cancelled  bool                `json:"cancelled"`  // the request context is already cancelled
 }
 
 // countingWriter observes how a response is written.
@@ -32,6 +34,7 @@ type countingWriter struct {
 	body    bytes.Buffer
 	wrote   bool
 	snapHdr http.Header
+	fail    bool
 }
 
 func (w *countingWriter) Header() http.Header { return w.hdr }
@@ -46,6 +49,9 @@ func (w *countingWriter) WriteHeader(code int) {
 func (w *countingWriter) Write(bs []byte) (int, error) {
 	if !w.wrote {
 		w.WriteHeader(200)
+	}
+	if w.fail {
+		return 0, fmt.Errorf("write: broken pipe")
 	}
 	return w.body.Write(bs)
 }
@@ -74,8 +80,14 @@ func Serve(h http.Handler, rec *Recorder, c ReqCase) {
 			r.Header.Add(k, v)
 		}
 	}
-	r = r.WithContext(context.WithValue(context.Background(), keyCase, &caseCtx{id: c.ID, script: c.Script}))
-	w := &countingWriter{hdr: http.Header{}}
+	ctx := context.WithValue(context.Background(), keyCase, &caseCtx{id: c.ID, script: c.Script})
+	if c.Cancelled {
+		cctx, cancel := context.WithCancel(ctx)
+		cancel()
+		ctx = cctx
+	}
+	r = r.WithContext(ctx)
+	w := &countingWriter{hdr: http.Header{}, fail: c.FailWrites}
 	done := Event{"ev": "Done", "case": c.ID}
 	func() {
 		defer func() {
